@@ -110,6 +110,10 @@ template<class C> static typename C::Iterator iter_at(C& c, long pos)
 #define PLAIN_EXTRAS \
   static void insert_n(C& c, int, int k, int v) { insert(c, 0, 0, k, v); } \
   static void remove_value(C& c, T*, long pos) { c.remove(iter_at(c, pos)); }
+// whole-container members (argument: the OTHER container of the pair) and the hinted insert, where a kind has none
+#define NO_INSALL static void insert_all(C&, C&, int, long) {}
+#define NO_REMALL static void remove_all(C&, C&) {}
+#define NO_HINT static void insert_hint(C&, long, int, int) {}
 
 struct TrList
 {
@@ -130,6 +134,12 @@ struct TrList
   static void swap(C& a, C& b) { a.swap(b); }
   static void assign(C& a, C& b) { a = b; }
   PLAIN_EXTRAS
+  // append / prepend / insert(position, ..) of a whole list
+  static void insert_all(C& c, C& o, int mode, long pos)
+  {
+    if(mode == 0) c.append(o); else if(mode == 1) c.prepend(o); else c.insert(iter_at(c, pos), o);
+  }
+  NO_REMALL NO_HINT
   static long id_of_item(C::Item* i) { return i->value.id; }
 };
 
@@ -148,6 +158,9 @@ struct TrMap
   static void swap(C&, C&) {}
   static void assign(C& a, C& b) { a = b; }
   PLAIN_EXTRAS
+  static void insert_all(C& c, C& o, int, long) { c.insert(o); }                       // Map::insert(const Map&)
+  static void insert_hint(C& c, long pos, int k, int v) { c.insert(iter_at(c, pos), k, Elem(Proto(), 0, v)); }
+  NO_REMALL
   static long id_of_item(C::Item* i) { return i->value.id; }
 };
 
@@ -166,6 +179,8 @@ struct TrMulti
   static void swap(C&, C&) {}
   static void assign(C& a, C& b) { a = b; }
   PLAIN_EXTRAS
+  static void insert_hint(C& c, long pos, int k, int v) { c.insert(iter_at(c, pos), k, Elem(Proto(), 0, v)); }
+  NO_INSALL NO_REMALL
   static long id_of_item(C::Item* i) { return i->value.id; }
 };
 
@@ -188,6 +203,7 @@ struct TrHashMap
   static void swap(C& a, C& b) { a.swap(b); }
   static void assign(C& a, C& b) { a = b; }
   PLAIN_EXTRAS
+  NO_INSALL NO_REMALL NO_HINT
   static long id_of_item(C::Item* i) { return i->value.id; }
 };
 
@@ -210,6 +226,9 @@ struct TrHashSet
   static void swap(C& a, C& b) { a.swap(b); }
   static void assign(C& a, C& b) { a = b; }
   PLAIN_EXTRAS
+  static void insert_all(C& c, C& o, int, long) { c.append(o); }                       // HashSet::append(const HashSet&)
+  static void remove_all(C& c, C& o) { c.remove(o); }                                  // HashSet::remove(const HashSet&)
+  NO_HINT
   static long id_of_item(C::Item* i) { return i->key.id; }
 };
 
@@ -243,6 +262,7 @@ struct TrPoolList
   static T* find(C&, int) { return 0; }
   static void swap(C& a, C& b) { a.swap(b); }
   static void assign(C&, C&) {}
+  NO_INSALL NO_REMALL NO_HINT
   static long id_of_item(C::Item* i) { return ((T*)(i + 1))->id; }
 };
 
@@ -268,6 +288,7 @@ struct TrPoolMap
   static T* find(C& c, int k) { C::Iterator i = c.find(k); return i == c.end() ? 0 : &*i; }
   static void swap(C& a, C& b) { a.swap(b); }
   static void assign(C&, C&) {}
+  NO_INSALL NO_REMALL NO_HINT
   static long id_of_item(C::Item* i) { return i->value.id; }
 };
 
@@ -453,6 +474,12 @@ template<class A> struct Drv : IDrv
     else if(!strcmp(o, "assign")) { if(A::has_assign) A::assign(c, *cont[1 - cur]); }
     else if(!strcmp(o, "selfassign")) { if(A::has_assign) A::assign(c, *cont[cur]); }     // x = x through two references
     else if(!strcmp(o, "destroy")) { c.~C(); A::make(cont[cur], cap); }
+    // whole-container operations; the argument is always the other container of the pair
+    else if(!strcmp(o, "appl")) A::insert_all(c, *cont[1 - cur], 0, 0);
+    else if(!strcmp(o, "prel")) A::insert_all(c, *cont[1 - cur], 1, 0);
+    else if(!strcmp(o, "insl")) A::insert_all(c, *cont[1 - cur], 2, atol(t.v[1]));
+    else if(!strcmp(o, "rmall")) A::remove_all(c, *cont[1 - cur]);
+    else if(!strcmp(o, "hint")) A::insert_hint(c, atol(t.v[1]), atoi(t.v[2]), atoi(t.v[3]));
     else { printf("%ld ?unknown-op\n", cs); return; }
 
     // events of the operation (before the observation code runs any find)
